@@ -165,7 +165,11 @@ def main():
         if cmd == "all":
             rc = 0
             for p in sorted(props.PROPS):
-                r = run_one(props, p, tier, seed, None)
+                try:
+                    r = run_one(props, p, tier, seed, None)
+                except C.ToolError as e:
+                    C.log("TOOL ERROR: " + str(e))
+                    r = 2
                 rc = max(rc, r)
             return rc
         if cmd not in props.PROPS:
